@@ -1064,6 +1064,40 @@ mod store {
         println!("{{\"found\": false, \"searched\": \"12 curated (two with a failing rollover), 40 pseudo-random histories with full merges and 24 with partial merges (no deletes), (set/del/get/merge/reopen over 3 keys, max_file_size in 0,40,100,1M) against the map model incl. per-file live-key and dead-byte accounting\"}}");
     }
 
+    /// C18 (bounded, real time): the background tasks of the real store with a 25 ms check interval.
+    ///  (a) policy never, triggers exceeded            -> no merge within 500 ms
+    ///  (b) policy always, no trigger exceeded         -> no merge within 500 ms
+    ///  (c) policy always, dead bytes above the trigger -> a merge within 3 s, without any client action
+    /// A merge shows as a change of the set of data files (it always creates files with higher ids).
+    pub fn background() {
+        use bitcask::storage::bitcask::VerifMergePolicy as MergePolicy;
+        let run = |name: &str, policy: MergePolicy, trig_dead: u64, trig_frag: f64, expect_merge: bool| {
+            let dir = tempfile::tempdir().unwrap();
+            let mut c = Config::default();
+            c.path(dir.path()).concurrency(1).max_file_size(64).sync(SyncStrategy::None)
+                .merge_policy(policy).merge_trigger_dead_bytes(trig_dead).merge_trigger_fragmentation(trig_frag)
+                .merge_threshold_small_file(u64::MAX).merge_threshold_dead_bytes(0).merge_threshold_fragmentation(0.0)
+                .merge_check_interval_ms(25).merge_check_jitter(0.2);
+            let kv = c.open().unwrap();
+            let h = kv.get_handle();
+            for i in 0..12 { h.set(b("k"), b(&format!("value-{}", i))).unwrap(); }     // 11 dead entries spread over several files
+            let before = files(dir.path());
+            let names = |v: &Vec<String>| -> Vec<String> { v.iter().filter(|f| f.contains(".data")).map(|f| f.split(':').next().unwrap().to_string()).collect() };
+            let deadline = std::time::Instant::now() + std::time::Duration::from_millis(if expect_merge { 3000 } else { 500 });
+            let mut merged = false;
+            while std::time::Instant::now() < deadline { if names(&files(dir.path())) != names(&before) { merged = true; break; } std::thread::sleep(std::time::Duration::from_millis(10)); }
+            let hist = format!("{}: 12 overwrites of one key with 64-byte files, check interval 25 ms, jitter 0.2, trigger dead_bytes {} fragmentation {}; no client action afterwards", name, trig_dead, trig_frag);
+            if merged != expect_merge {
+                report("background", "C18", &hist, if merged { format!("a merge ran: data files {:?} -> {:?}", names(&before), names(&files(dir.path()))) } else { "no merge ran within 3 s".to_string() },
+                       if expect_merge { "a merge within one check interval plus jitter (plus slack)" } else { "no merge" });
+            }
+            if h.get(b("k")).ok().flatten().as_deref() != Some(b"value-11".as_ref()) { report("background", "C18", &hist, "k does not read value-11 afterwards".into(), "value-11"); }
+        };
+        run("policy never, triggers exceeded", MergePolicy::Never, 0, 0.0, false);
+        run("policy always, no trigger exceeded", MergePolicy::Always, u64::MAX, 1.0, false);
+        run("policy always, dead bytes above the trigger", MergePolicy::Always, 10, 1.0, true);
+        println!("{{\"found\": false, \"evaluations\": 3, \"searched\": \"3 configurations of the background merge (never / always without trigger / always with trigger) on the real store with a 25 ms check interval; a merge is observed as a change of the set of data files\"}}");
+    }
     /// D11: an append that fails mid-entry (RLIMIT_FSIZE makes write(2) fail with EFBIG after a partial write)
     /// leaves a partial record that later appends follow; after a restart acknowledged data is gone.
     pub fn torn_append() {
@@ -1119,6 +1153,7 @@ fn main() {
         Some("conn-search") => conn_search(),
         Some("server-hostile") => server_hostile(),
         Some("server-slots") => server_slots(),
+        Some("store-background") => store::background(),
         Some("server-shutdown") => server_shutdown(a.get(2).map(|s| s.parse().unwrap()).unwrap_or(0)),
         Some("server-search") => server_search(a.get(2).map(|s| s.parse().unwrap()).unwrap_or(0)),
         Some("decimal-search") => decimal_search(a.get(2).map(|s| s.parse().unwrap()).unwrap_or(200000)),
